@@ -4,21 +4,30 @@ from translators import tr_c14
 PID = "C14"
 CLAIM = True
 MANIFEST_TEXT = ("Lean 4 theorems, for every rank and all extents (0 and 1 included), about a model whose offset/stride/"
-                 "product/span-size loops are assembled from pieces regenerated from layout_left.hh, layout_right.hh, "
-                 "layout_stride.hh and extents.hh on every run: offsets of valid index tuples lie in [0, required_span_size), "
-                 "are injective (left/right always; strided under the sorted-stride criterion), change by stride(r) per unit "
-                 "step, equal the column-/row-major closed form, fill the range without gaps (left/right), "
-                 "required_span_size of a strided mapping is 1 + sum (E_r-1) S_r (0 if an extent is 0), layout and extents "
-                 "conversions preserve the addressing, the static/dynamic extent index table is correct, mdspan/mdarray "
-                 "access stays inside storage of required_span_size elements and hits exactly the designated element, "
-                 "span sub-views denote the designated elements.  The model is run against the real templates "
-                 "(ranks 0..4, extents 0..4 (random part up to 8), 32 static/dynamic patterns, index types int/size_t/short, all index tuples) "
-                 "with an independent enumeration-order oracle, pointer-identity checks and ASan.")
+                 "product/span-size/size() loops are assembled from pieces regenerated from layout_left.hh, layout_right.hh, "
+                 "layout_stride.hh, extents.hh, mdspan.hh and mdarray.hh on every run: offsets of valid index tuples lie in "
+                 "[0, required_span_size), are injective (left/right always; strided under the sorted-stride criterion, "
+                 "dimensions of extent 1 ignored), change by stride(r) per unit step, equal the column-/row-major closed form, "
+                 "fill the range without gaps (left/right); no intermediate value of the offset loops exceeds the final offset "
+                 "(so nothing overflows when required_span_size fits index_type); required_span_size of a strided mapping is "
+                 "1 + sum (E_r-1) S_r (0 if an extent is 0); every converting constructor between the three mapping types and "
+                 "between extents types preserves rank, extents, the offset of EVERY index tuple and the required span; the "
+                 "static/dynamic extent index table and all extents constructors (incl. value-initialisation) are correct; "
+                 "mdspan/mdarray access stays inside storage of required_span_size elements and hits exactly the designated "
+                 "element for EVERY unique mapping; arrays built from views copy every element and own exactly the required span; "
+                 "converted views read the same elements; span sub-views denote the designated elements for ALL histories of "
+                 "first/last/subspan.  The model is run against the real templates (ranks 0..4, extents 0..4 (random part up to "
+                 "8), 32 static/dynamic patterns, index types int/size_t/short, all index tuples, every public constructor of "
+                 "extents/mappings/mdspan/mdarray/span, a custom accessor policy and data handle) with an independent "
+                 "enumeration-order oracle, pointer-identity and accessor-log checks and ASan.")
 MANIFEST_NOTE = ("Trusted: Lean kernel (+propext/Classical.choice/Quot.sound), tr_c14.py, the hand-written loop skeletons of "
                  "Model/C14.lean (fidelity checked by the differential run only), the harness oracle, g++/ASan/UBSan. "
-                 "Index arithmetic is modelled over Nat: overflow of index_type is outside the model (the run uses small "
-                 "extents).  Accessor policies other than default_accessor and containers other than std::vector are not "
-                 "exercised.")
+                 "Index arithmetic is modelled over Nat: the theorems bound every intermediate value by required_span_size "
+                 "for non-empty index spaces; wrap-around of index_type itself (huge extents, or an empty index space whose "
+                 "other extents overflow) is outside the model (the run uses extents <= 8).  is_exhaustive() of strided "
+                 "mappings is corresponded and checked by the oracle but not the subject of a theorem.  Containers other "
+                 "than std::vector/std::array, the C++23 multidimensional operator[] and the deduction guides of "
+                 "mdspan/mdarray are not exercised.")
 TECHNIQUE = "Lean 4 proof over loop model + translator for the loop pieces + differential correspondence with enumeration oracle"
 TRANSLATORS = [tr_c14.translate]
 HARNESS = dict(
@@ -30,17 +39,18 @@ HARNESS = dict(
 )
 RULE = ("cases: (a) enumeration of every instantiated extents type (32 static/dynamic patterns, ranks 0..4, index types "
         "int/size_t/short) x layout left/right/stride x all dynamic extents in 0..3 (quick) / 0..4 (thorough), each case "
-        "covering ALL index tuples of the index space; (b) random mix of map/conv/mdspan/mdarray/span operations with "
+        "covering ALL index tuples of the index space; (b) random mix of map/conv/mdspan/mdarray/span operations (all constructor forms of "
+        "extents, mappings, views, arrays and spans; custom accessor) with "
         "extents biased to 0 and 1 and strides that are permuted/padded nestings, canonical, or arbitrary.  distinct = "
         "distinct op lines; non-trivial = accepted by the executor (precondition-violating lines are answered bad-op by "
         "both sides and counted trivial)")
 ASSUMPTIONS = [
     "the loop skeletons in lean/DuneVerif/Model/C14.lean are hand-written; their fidelity to the C++ templates rests on this differential run",
-    "the loop pieces (initial value, bounds, step) of operator(), stride(i), product() and size() are regenerated from the sources by tools/translators/tr_c14.py",
+    "the loop pieces (initial value, bounds, step) of operator(), stride(i), product(), layout_stride size() and mdspan/mdarray size() are regenerated from the sources by tools/translators/tr_c14.py",
     "index arithmetic over Nat: no overflow of index_type (extents <= 8, strides <= 1000 in the run)",
-    "the tree under test contains fixes/C14_from_stride.patch, C14_mdspan_convert.patch and C14_mdarray_alloc.patch (the harness instantiates the constructors they repair)",
+    "the tree under test contains fixes/C14_from_stride.patch, C14_mdspan_convert.patch and C14_mdarray_alloc.patch (the harness instantiates the constructors they repair); without fixes/C14_stride_rank0.patch the rank-0 strided cases are reported as violations",
 ]
-TRUSTED = ["g++/libstdc++, ASan/UBSan", "translator tr_c14.py", "harness/cxx_c14.cc (oracle: enumeration order, std::set, pointer identity) + Driver/C14.lean parsing/printing"]
+TRUSTED = ["g++/libstdc++, ASan/UBSan", "translator tr_c14.py", "harness/cxx_c14.cc (oracle: enumeration order, std::set, pointer identity, accessor log) + Driver/C14.lean parsing/printing"]
 
 
 def batches(tier, seed):
